@@ -121,7 +121,18 @@ fn evaluate_do_block_expr(
         // Still check for keywords
         if matches!(
             ident.as_str(),
-            "return" | "if" | "then" | "else" | "do" | "true" | "false" | "null" | "output"
+            "return"
+                | "if"
+                | "then"
+                | "else"
+                | "do"
+                | "true"
+                | "false"
+                | "null"
+                | "output"
+                | "constants"
+                | "inf"
+                | "infinity"
         ) {
             return Err(RuntimeError::with_span(
                 format!("{} is a keyword, and cannot be reassigned", ident),
@@ -330,6 +341,22 @@ pub fn evaluate_ast(
             Ok(heap.borrow_mut().insert_record(record))
         }
         Expr::Lambda { args, body } => {
+            // `inf`, `infinity` and `constants` always denote the built-in constants, so a
+            // parameter of that name could never be read
+            if let Some(arg) = args
+                .iter()
+                .find(|arg| matches!(arg.get_name(), "inf" | "infinity" | "constants"))
+            {
+                return Err(RuntimeError::with_span(
+                    format!(
+                        "{} is a keyword, and cannot be used as a parameter name",
+                        arg.get_name()
+                    ),
+                    expr.span,
+                    source.clone(),
+                ));
+            }
+
             // Capture variables used in the lambda body
             let mut captured_scope = HashMap::new();
             let mut referenced_vars = Vec::new();
@@ -381,6 +408,8 @@ pub fn evaluate_ast(
                 || ident == "inputs"
                 || ident == "and"
                 || ident == "or"
+                || ident == "inf"
+                || ident == "infinity"
             {
                 return Err(RuntimeError::with_span(
                     format!("{} is a keyword, and cannot be reassigned", ident),
